@@ -300,5 +300,10 @@ PROPS['C19'] = dict(
   units=[_c19('srips_n3_seed0', 3, 0), _c19('srips_n4_seed0', 4, 0, weight=10), _c19('srips_n4_seed7', 4, 7, weight=10), _c19('srips_n4_seed12345', 4, 12345, weight=10), _c19('srips_n4_validity', 4, 3, extra=['VP_VALIDITY_ONLY', 'VP_GRIDN=3'], weight=10), _c19('srips_n3_validity', 3, 5, extra=['VP_VALIDITY_ONLY'], weight=4),
          _c19('srips_n5', 5, 1, extra=['VP_GRIDN=3'], tiers=['thorough'], weight=60)])
 
+import sys, os
+sys.path.insert(0, os.path.join(os.path.dirname(os.path.abspath(__file__)), 'engine'))
+import cbmc_c10
+EXTRA['C10'] = cbmc_c10.run
+
 NOT_APPLICABLE = {}
 NOTES = 'Clauses outside every claim: real thread schedules/TBB execution (engine is sequential), iostream text I/O, GMP arbitrary precision, Eigen-based Coxeter point location under general affine maps, SIMD paths of boost::unordered_flat_map (compiled with -U__SSE2__), allocation failure, inputs beyond the stated bounds.'
